@@ -28,8 +28,8 @@ TOP = (1 << 256) - 1
 def _parent(case, public=False):
     xk = bridge.xkey_from_case(case)
     if public:
-        return xk, bridge.mk_node(xk.neuter(), case["testnet"], case.get("form", "ctor"), public=True)
-    return xk, bridge.mk_node(xk, case["testnet"], case.get("form", "ctor"))
+        return xk, bridge.mk_node(xk.neuter(), case["testnet"], case.get("form", "ctor"), public=True, purpose=case.get("vpurpose", 44))
+    return xk, bridge.mk_node(xk, case["testnet"], case.get("form", "ctor"), purpose=case.get("vpurpose", 44))
 
 
 def _run_ckd(node, i, I):
@@ -63,8 +63,8 @@ def judge_fault_ckd(ctx, case):
         pass
     ok = err is not None
     obs = err if ok else bridge.node_obs(r)
-    if ok and (len(node.children) != n0 or bridge.node_obs(node) != ident0):
-        ok, obs = False, {"children_before": n0, "children_after": len(node.children)}
+    if ok and bridge.node_obs(node) != ident0:
+        ok, obs = False, {"parent_before": ident0, "parent_after": bridge.node_obs(node)}
     return ctx.judge(mon, ok, case, "raise", obs, cls="%s|%s|%s" % (case["ftag"], "hard" if i >= H else "norm", case.get("form", "ctor")),
                      outcome="raised:" + type(err).__name__ if err is not None else "returned",
                      mech="C18.ckd_%s.returned" % ("priv" if not public else "pub") if err is None else "C18.ckd_%s.state_changed" % case["side"])
@@ -145,48 +145,65 @@ def judge_bip85(ctx, case):
 
 
 def judge_sequence(ctx, case):
-    """invalid / valid stubs alternated on the same parent object."""
+    """A fixed chosen-output PRF (a FUNCTION of the child index: some indexes map to invalid outputs, others to valid
+    ones) and a sequence of requests on the SAME parent object that revisits indexes: an invalid child must be refused
+    every time it is asked for, valid ones in between must be right, the parent's key material must not change."""
+    import btc_hd_wallet.bip32 as b32
     public = case["side"] == "pub"
     xk, node = _parent(case, public)
     refpar = xk.neuter() if public else xk
     ident0 = bridge.node_obs(node)
+    table = {int(i): (il, ir) for i, il, ir in case["table"]}
     bad = []
-    good_calls = 0
-    for step, (i, il, ir) in enumerate(case["steps"]):
-        I = il.to_bytes(32, "big") + ir
-        try:
-            exp = (rb32.ckd_pub_from_I if public else rb32.ckd_priv_from_I)(refpar, i, I)
-        except rb32.InvalidChild:
-            exp = None
-        n0 = len(node.children)
-        r, err, used = _run_ckd(node, i, I)
-        if exp is None:
-            if err is None:
-                bad.append(("step%d.invalid_returned" % step, "raise", bridge.node_obs(r)))
-            elif len(node.children) != n0:
-                bad.append(("step%d.child_left_behind" % step, n0, len(node.children)))
-        else:
-            if err is not None:
+
+    def plan(key, msg):
+        i = int.from_bytes(msg[-4:], "big")
+        if i in table:
+            il, ir = table[i]
+            return il.to_bytes(32, "big") + ir
+        return None
+
+    with inject.PRFStub([b32], plan=plan) as stub:
+        for step, i in enumerate(case["visits"]):
+            il, ir = table[i]
+            I = il.to_bytes(32, "big") + ir
+            try:
+                exp = (rb32.ckd_pub_from_I if public else rb32.ckd_priv_from_I)(refpar, i, I)
+            except rb32.InvalidChild:
+                exp = None
+            try:
+                r, err = node.ckd(index=i), None
+            except Exception as e:  # noqa
+                r, err = None, e
+            nth = case["visits"][:step + 1].count(i)
+            if exp is None:
+                if err is None:
+                    bad.append(("step%d.invalid_returned_on_request_%d" % (step, nth), "raise", bridge.node_obs(r)))
+            elif err is not None:
                 bad.append(("step%d.valid_after_fault_raised" % step, exp.fields(), err))
             else:
-                good_calls += 1
                 b = bridge.compare_node(r, exp, case["testnet"], not public)
                 if b:
                     bad.append(("step%d.valid_after_fault_wrong.%s" % (step, b[0][0]), b[0][1], b[0][2]))
-        if bridge.node_obs(node) != ident0:
-            bad.append(("step%d.parent_changed" % step, ident0, bridge.node_obs(node)))
-    # finally a real (unstubbed) derivation still equals the reference
+            if bridge.node_obs(node) != ident0:
+                bad.append(("step%d.parent_changed" % step, ident0, bridge.node_obs(node)))
+        consulted = sum(1 for c in stub.calls if c[3])
+    if consulted == 0:
+        ctx.note_inconclusive("PRF stub was not consulted in a fault sequence")
+        return
+    # finally a real (unstubbed) derivation at an index the table does not cover still equals the reference
     try:
-        real = node.ckd(index=5)
-        exp = (rb32.ckd_pub if public else rb32.ckd_priv)(refpar, 5)
+        free = next(j for j in range(5, 50) if j not in table)
+        real = node.ckd(index=free)
+        exp = (rb32.ckd_pub if public else rb32.ckd_priv)(refpar, free)
         b = bridge.compare_node(real, exp, case["testnet"], not public)
         if b:
             bad.append(("real_after_faults." + b[0][0], b[0][1], b[0][2]))
     except Exception as e:  # noqa
         bad.append(("real_after_faults.raised", None, e))
     tag = bad[0][0].split(".", 1)[1] if bad else ""
-    return ctx.judge("sequence", not bad, case, None, bad[:4], cls="seq|%s|%d" % (case["side"], len(case["steps"])),
-                     mech="C18.sequence." + tag.split(".")[0])
+    return ctx.judge("sequence", not bad, case, None, bad[:4], cls="seq|%s|%d" % (case["side"], len(case["visits"])),
+                     mech="C18.sequence." + tag.split(".")[0].rstrip("0123456789_"))
 
 
 def gen_parent(rnd):
@@ -194,7 +211,7 @@ def gen_parent(rnd):
     d = gen.depth(rnd)
     return {"k": k, "c": gen.chain_code(rnd)[1], "depth": d, "pindex": 0 if d == 0 else gen.index(rnd)[1],
             "pfp": b"\x00" * 4 if d == 0 else gen.rbytes(rnd, 4), "testnet": rnd.random() < 0.5, "ktag": ktag,
-            "form": rnd.choice(["ctor", "str", "bytes"])}
+            "form": rnd.choice(["ctor", "str", "bytes"]), "vpurpose": rnd.choice([44, 49, 84])}
 
 
 def invalid_ILs(rnd, k):
@@ -237,12 +254,18 @@ def run(ctx):
         base = gen_parent(rnd)
         side = ("prv", "pub")[j & 1]
         k = base["k"]
-        steps = []
-        for s in range(rnd.randrange(3, 8)):
-            pool = invalid_ILs(rnd, k) if s % 2 == 0 else valid_ILs(rnd, k)
+        table, idxs = [], []
+        for s_ in range(rnd.randrange(3, 7)):
+            pool = invalid_ILs(rnd, k) if s_ % 2 == 0 else valid_ILs(rnd, k)
             ftag, il = rnd.choice(pool)
-            steps.append((gen.index(rnd, hardened=False if side == "pub" else None)[1], il, gen.rbytes(rnd, 32)))
-        judge_sequence(ctx, dict(base, side=side, steps=steps))
+            while True:
+                i = gen.index(rnd, hardened=False if side == "pub" else None)[1]
+                if i not in idxs:
+                    break
+            idxs.append(i)
+            table.append((i, il, gen.rbytes(rnd, 32)))
+        visits = list(idxs) + [rnd.choice(idxs) for _ in range(rnd.randrange(2, 6))]     # revisits: 2nd, 3rd ... request of the same child
+        judge_sequence(ctx, dict(base, side=side, table=table, visits=visits))
 
 
 def replay(ctx, monitor, case):
@@ -252,10 +275,8 @@ def replay(ctx, monitor, case):
         judge_master(ctx, case)
     elif monitor == "fault.bip85":
         judge_bip85(ctx, case)
-    elif monitor == "sequence":
-        case["steps"] = [tuple(s) for s in case["steps"]]
-        judge_sequence(ctx, case)
-    elif "steps" in case:
+    elif monitor == "sequence" or "table" in case:
+        case["table"] = [tuple(s) for s in case["table"]]
         judge_sequence(ctx, case)
     elif "app" in case:
         judge_bip85(ctx, case)
